@@ -64,6 +64,19 @@ def F17b():
     sent, err = _drive(app)
     return (bool(err) and not closed), f"close() calls: {len(closed)}; raised: {[type(e).__name__ for e in err]}"
 
+def F17c():
+    """root_path '/app', request path '/application/x': the path is split with a plain prefix test,
+    so the application is called with SCRIPT_NAME '/app' and PATH_INFO 'lication/x'"""
+    from hypercorn.app_wrappers import _build_environ
+
+    scope = {"type": "http", "method": "GET", "path": "/application/x", "root_path": "/app", "query_string": b"", "http_version": "1.1",
+             "scheme": "http", "headers": [], "server": ("h", 80), "client": ("c", 1)}
+    try:
+        env = _build_environ(scope, b"")
+    except Exception as e:  # noqa
+        return False, f"raised {type(e).__name__}"
+    return (env["PATH_INFO"] != "" and not env["PATH_INFO"].startswith("/")), f"SCRIPT_NAME={env['SCRIPT_NAME']!r} PATH_INFO={env['PATH_INFO']!r}"
+
 
 SCENARIOS = {k: v for k, v in globals().items() if k.startswith("F") and callable(v)}
 
